@@ -3,6 +3,8 @@ import NimaVerif.Lemmas.NodeEq
 import NimaVerif.Model.LayerSpec
 /-! Helper lemmas for C09: selector parsing, `collectScopeLayers` / `writeScopeLayers`. -/
 namespace Nima
+-- name tokens are compared by spelling in this file (see `NameCmp` in Model/Edit.lean)
+attribute [local instance] NameCmp.spelled
 
 open Node EditM
 
